@@ -1692,9 +1692,13 @@ class Scheduler:
         # Set eval_args on job.
         job.eval_args = eval_args
 
-        # Preprocess arguments before sending them to task function.
-        args, kwargs = job.eval_args
-        args, kwargs = job.args = self._preprocess_args(job, args, kwargs)
+        if job.args is None:
+            # Preprocess arguments before sending them to task function. This is done only once
+            # per job, since preprocessing is not idempotent (e.g. it forks Handles) and a job
+            # re-enters here after waiting for resource limits.
+            args, kwargs = job.eval_args
+            job.args = self._preprocess_args(job, args, kwargs)
+        args, kwargs = job.args
 
         # Check cache using eval_hash as key.
         job.eval_hash, job.args_hash = hash_args_eval(self.type_registry, job.task, args, kwargs)
